@@ -50,6 +50,10 @@ theorem noteOrder_fields (s : St) (ok : Bool) :
 
 @[simp] theorem noteOrder_true (s : St) : s.noteOrder true = s := rfl
 
+/-- without a restart nothing is invalidated, and a DAG that starts hides nothing -/
+theorem refresh_of_nil {s : St} (h : s.stale = []) (ns : List Node) : s.refresh ns = s := by
+  simp [St.refresh, h]
+
 @[simp] theorem core_setSw (s : St) (n : Node) (lc : Label × Node) : (s.setSw n lc).core = s.core := rfl
 @[simp] theorem core_setActive (s : St) (a : List (Node × Node)) : (s.setActive a).core = s.core := rfl
 @[simp] theorem core_setAdditional (s : St) (n : Node) (v : Val) : (s.setAdditional n v).core = s.core := rfl
